@@ -7,6 +7,7 @@ import Drv.EnvP
 import Drv.RunCmd
 import Drv.Report
 import Drv.Use
+import Drv.Sched
 open Lean
 
 def dispatch (model : String) (j : Json) : Except String Json :=
@@ -20,6 +21,8 @@ def dispatch (model : String) (j : Json) : Except String Json :=
   | "runcmd" => Drv.RunCmd.run j
   | "report" => Drv.Report.run j
   | "use" => Drv.Use.run j
+  | "sched" => Drv.Sched.run j
+  | "decide" => Drv.Sched.runDecide j
   | "diagreads" => Drv.Diag.runReads j
   | _ => throw s!"bad-model {model}"
 
